@@ -22,7 +22,7 @@ N = {'quick': 600, 'thorough': 12000}
 TRANSFORMS = ['rekey0', 'rekey-sparse', 'reorder', 'reverse', 'rename', 'signature', 'rewrite-base',
               'rewrite-query', 'query-key', 'compose']
 INTERNAL_NAMES = ['eta_1', 'eta_2', 'mv_1', 'mf_1', 'mv_query', 'gamma-_1', 'eta_3', 'mf_2']
-REQUIRED = {'quick': {'t_' + t: 20 for t in TRANSFORMS}, 'thorough': {'t_' + t: 200 for t in TRANSFORMS}}
+REQUIRED = {'quick': {'t_' + t: 8 for t in TRANSFORMS}, 'thorough': {'t_' + t: 200 for t in TRANSFORMS}}
 HOSTILE_NAMES = ['A', 'B1', 'x1', 'a-b', 'a_b', 'Topp', 'bottom', 'Z9', 'q-1_x', 'signature1', 'v', 'f', 'nf']
 
 
